@@ -195,7 +195,7 @@ def check(ctx):
     f = ctx.fn("cnf:CNF.as_unigen_string")
     F = Facts(f)
     ss = F.assigns("support_set")
-    ctx.check(ss[:1] == ["[Var(n) for n in range(1, 1 + support_set_length)]"], R, f, "support set %s" % ss[:1],
+    ctx.check(ss[:1] == ["[Var(_b0) for _b0 in range(1, 1 + support_set_length)]"], R, f, "support set %s" % ss[:1],
               "sampling set = variables 1 .. support", "as_unigen_string builds the sampling set as %s" % ss[:1])
     from . import C27
     C27.sampling_set_lines(ctx, rule="C03.sampling-set")
